@@ -145,10 +145,12 @@ type c09Pose struct {
 	Mirror          bool // QR only: transpose
 	TryHarder       bool
 	Height          int // 1-D bar height in modules
+	Present         int // how the image is handed to the reader (zz_c09_present.go): concrete type, SubImage of a sheet, shifted origin
+	Dx, Dy          int // origin of the shifted presentations
 }
 
 func (p c09Pose) String() string {
-	return fmt.Sprintf("pad=%d scale=%d rot=%d mirror=%v tryharder=%v h=%d", p.Pad, p.Scale, p.Rot*90, p.Mirror, p.TryHarder, p.Height)
+	return fmt.Sprintf("pad=%d scale=%d rot=%d mirror=%v tryharder=%v h=%d image=%s origin=(%d,%d)", p.Pad, p.Scale, p.Rot*90, p.Mirror, p.TryHarder, p.Height, c09PresentNames[p.Present], p.Dx, p.Dy)
 }
 
 // c09Render: the writer's own minimal output (its default quiet zone included), then the pose.
@@ -190,7 +192,7 @@ type c09Read struct {
 	Mirror bool
 }
 
-func c09Decode(s *c09Sym, g *image.Gray, p c09Pose) c09Read {
+func c09Decode(s *c09Sym, g image.Image, p c09Pose) c09Read {
 	res := c09Read{Orient: -1}
 	out := SafeT(c06Timeout*3, func() string {
 		bmp, err := gozxing.NewBinaryBitmapFromImage(g)
@@ -273,6 +275,10 @@ func c09Poses(r *Rng, s *c09Sym, n int) []c09Pose {
 			p.TryHarder = r.Chance(0.3)
 		} else {
 			p.TryHarder = r.Chance(0.3)
+		}
+		if i%2 == 1 { // every other pose: another concrete image type and/or a view with a non-zero origin
+			p.Present = r.Range(1, c09PresentKinds-1)
+			p.Dx, p.Dy = r.Pick([]int{1, 5, 7, 32, 100}), r.Pick([]int{1, 3, 5, 32, 64})
 		}
 		ps = append(ps, p)
 	}
@@ -373,7 +379,19 @@ func runC09(c *Ctx) {
 				c.Note("write-error:" + s.Name) // the writers' own correctness is C01-C03 / C12
 				continue
 			}
-			rd := c09Decode(s, g, p)
+			var img image.Image = g
+			if p.Present != 0 {
+				var decoy *image.Gray
+				if p.Present == 1 || p.Present == 4 || p.Present == 10 {
+					// another label of the same symbology around the view
+					if dc, _ := c09Content(r, s); dc != j.content {
+						decoy, _ = c09Render(s, dc, p)
+					}
+				}
+				img = c09Present(g, decoy, p.Present, p.Dx, p.Dy)
+				c.Note("image-presented-as:" + c09PresentNames[p.Present])
+			}
+			rd := c09Decode(s, img, p)
 			clean := c09Clean(s, p)
 			cl := "dirty"
 			if clean {
